@@ -255,6 +255,66 @@ def check_replacement(rec, rng, case, full_ob, kind):
                     rec.cls("invalid_selected_section_tolerated")
 
 
+def sibling_edit(rec, rng, case) -> None:
+    """Tracks do not interfere - also not afterwards: one section of the file is pasted under further headers (another difficulty of the
+    same instrument, another instrument: identical bodies, identical star-power lines - what charters do all the time), the file is
+    parsed, and the application then filters / clears / appends to the lists of ONE returned track in place. Every other track still
+    shows what it showed."""
+    secs = [(n, list(b)) for n, b in case["sections"]]
+    inst = [(n, b) for n, b in secs if n not in ("Song", "SyncTrack", "Events") and b]
+    if not inst:
+        return
+    donor, body = inst[0]
+    hdr = {model.header(i, d): (i, d) for i, d in model.ALL_PAIRS}
+    i0, d0 = hdr[donor]
+    have = {n for n, _ in secs}
+    extra = [h for h in (model.header(i0, d) for d in model.DIFFICULTIES if d != d0) if h not in have][:2] + \
+        [h for h in (model.header(i, d0) for i in ("DRUMS", "KEYS", "BASS")) if h not in have][:1]
+    if not extra:
+        return
+    text = gen.render_sections(secs + [(h, list(body)) for h in extra])
+    out = harness.parse(text)
+    rec.ev()
+    if not out.ok:
+        rec.violation("interference", f"[{donor}] pasted under {extra}: the chart is rejected with {harness.exc_str(out.exc)}", {"text": text, "sibling_edit": True},
+                      "pasted-section-rejected")
+        return
+    before = harness.obs(out.chart)["tracks"]
+    I, D = harness.Instrument, harness.Difficulty
+    victim = out.chart.instrument_tracks[I[i0]][D[d0]]
+    done = False
+    for x in (victim.note_events, victim.star_power_events, victim.track_events):
+        try:
+            if isinstance(x, list):
+                if x:
+                    x.reverse()
+                    del x[1:]
+                else:
+                    x.append(out.chart.sync_track.time_signature_events[0])
+                done = True
+        except Exception:  # noqa
+            pass
+    if not done:
+        return
+    rec.ev()
+    try:
+        after = {}
+        for inst_, m in out.chart.instrument_tracks.items():
+            for diff_, tr in m.items():
+                if tr is not victim:
+                    after[f"{inst_.name}/{diff_.name}"] = observe.observe_track(tr)
+    except Exception as e:  # noqa
+        rec.violation("interference", f"after the application edited the lists of track {i0}/{d0} in place, another track can no longer be read: {harness.exc_str(e)}",
+                      {"text": text, "sibling_edit": True}, "edit-of-one-track-reaches-another")
+        return
+    bad = [k for k, v in after.items() if before.get(k) != v]
+    if bad:
+        rec.violation("interference", f"[{donor}] also stands under {extra}; after the application edited the lists of the returned track {i0}/{d0} in place, the tracks "
+                      f"{bad[:4]} show other events than before", {"text": text, "sibling_edit": True}, "edit-of-one-track-reaches-another")
+    else:
+        rec.cls("one_tracks_lists_edited_in_place_siblings_with_identical_bodies_unchanged")
+
+
 def late_entrant_chart(rng):
     """a song with 40-120 tempo changes in which one part plays throughout, one enters late (its first note lies dozens of tempo changes
     in), one plays only the intro, one has a single note near the end: what the tracks share - the tempo map - is walked very
@@ -336,6 +396,8 @@ def run_shard(shard, rec, tier, seed):
                 break
         for kind in ("valid", "empty", "garbage", "invalid_forced_first", "invalid_disorder"):
             check_replacement(rec, rng, case, full_ob, kind)
+        if i % 3 == 1:
+            sibling_edit(rec, rng, case)
         if i % 3 == 0 and "\r" not in case["text"]:
             path_history(rec, rng, case["text"], full_ob, present, ppairs)
         if i < 1:
@@ -363,6 +425,12 @@ def replay(case, rec):
             present = sorted(ob["tracks"])
             for _ in range(4):
                 path_history(rec, random.Random(_), case["text"], ob, present, [tuple(k.split("/")) for k in present])
+        return
+    if case.get("sibling_edit"):
+        import random
+
+        secs = gen.split_sections(case["text"])
+        sibling_edit(rec, random.Random(0), {"sections": secs})
         return
     if "victim" in case:
         base = harness.parse(case["baseline_text"])
